@@ -29,7 +29,7 @@ func init() {
 			"for bodies the reference codec rejects for reasons other than being too short (trailing bytes, inconsistent stat sizes) either an error or a message is accepted, but it must be the same on a fresh channel",
 		},
 		Shards:   shards(8, 16),
-		Timeout:  timeouts(5*time.Minute, 30*time.Minute),
+		Timeout:  timeouts(12*time.Minute, 90*time.Minute),
 		MinEvals: 500,
 		Required: []string{"midstream_setmsize", "class:valid", "class:exact", "class:oversize", "class:truncated", "class:prefix<4", "class:prefix4-6", "class:badtype", "class:tailcut", "class:tailcut-oversize", "class:hostile", "after_abnormal_delivered", "residue_probes"},
 		Run:      runC03,
